@@ -43,7 +43,7 @@ def run(ctx):
                    'other transmit API is applied to a socket', floor=2)
     chk.rule('B2', 'no indefinitely blocking or signalling API is reachable from the interposers', floor=1)
     chk.rule('B3', 'every I/O result is tested before the dependent handle or buffer is used (no NULL FILE*/pointer '
-                   'dereference, no read of a buffer that is only valid on success)', floor=25)
+                   'dereference, no read of a buffer that is only valid on success)', floor=15)
     chk.rule('B4', 'failures cannot propagate: the action returns void and does not branch on the output status', floor=1)
     chk.rule('B5', 'no transmit/open/connect call is retried in a loop inside an output (a sink that never becomes '
                    'ready would stall the exec)', floor=1)
